@@ -29,6 +29,7 @@ ASSUMPTIONS = [
     'timeouts are reported as inconclusive in evidence',
     'fault injection (c) targets lines the reference layout marks as selected and unmuted',
 ]
+SHARD_MIN = 20
 BUDGET = {'quick': 640, 'thorough': 20000}
 LEVEL_TEXT = ('Exploration / fuzzing with a process-level oracle: termination and fail-closed behaviour are claims about '
               'all inputs, observed only from outside the process (exit status, wall clock, output file); generated '
